@@ -425,6 +425,28 @@ def _filter_guard(clo, host, a, b):
     return None
 
 
+_LEN_OWNERS = ("Vec", "[", "str", "String", "VecDeque", "&[", "&str")
+
+
+def _len_plus_const(fn, span):
+    """`xs.len() + <small literal>` with xs a Vec / slice / str / String: a length is at most isize::MAX, so the sum cannot overflow a usize."""
+    if not span or fn.body is None:
+        return None
+    for node in fb.walk(fn.body):
+        if node.get("k") == "binary" and node.get("op") == "+" and node.get("s") and node["s"][0] == span[0] and node["s"][1] == span[1]:
+            for a, b in ((node["l"], node["r"]), (node["r"], node["l"])):
+                if a.get("k") == "mcall" and a["name"] == "len" and not a.get("args") and b.get("k") == "lit":
+                    rty = str((a.get("recv") or {}).get("ty") or "").replace("&mut ", "").replace("&", "").strip()
+                    cal = fb.callee(a) or ""
+                    v = str(b.get("v") or "")
+                    num = v.split(":")[-1]
+                    if (cal.endswith("::len") and (rty.startswith(("std::vec::Vec", "alloc::vec::Vec", "Vec<", "[", "str", "std::string::String", "alloc::string::String", "String")))
+                            and num.isdigit() and int(num) <= 65536):
+                        return "`%s`: a length is at most isize::MAX, the sum cannot overflow" % fb.show(node)[:60]
+            return None
+    return None
+
+
 def _sub_guarded(fn, span):
     """`a - b` in the then-branch of `if b <= a` (or `a >= b`, `b < a`, `a > b`) with a and b places that are never assigned: cannot underflow."""
     if not span or fn.body is None:
@@ -587,6 +609,8 @@ def sites_of(facts, fn):
                     shape = ",".join("const" if o.startswith("const") else "var" for o in (ops or []))
                     origin = "%s<%s>(%s)" % (msg, ty, shape)
                     auto = _sub_guarded(fn, t.get("s")) if msg.startswith("overflow:Sub") or msg.startswith("overflow(Sub") or "Sub" in msg else None
+                    if auto is None and "Add" in msg:
+                        auto = _len_plus_const(fn, t.get("s"))
                     out.append((t["s"][0], Site(fn.def_, "arith", origin, "%s:%s" % (fn.file, t.get("ln")),
                                                 "arithmetic assert %s on %s" % (msg, ty), auto, b.def_)))
     out.sort(key=lambda x: x[0])
